@@ -78,7 +78,8 @@ DELTAS = [-3600, -60, -1, 0, 1, 59, 3600]
 def tla_zone(z):
     tr = ", ".join("<<%d, %d>>" % (t, o) for t, o, _ in z["tr"])
     ex = ", ".join("TRUE" if e else "FALSE" for _, _, e in z["tr"])
-    return '[name |-> "%s", init |-> %d, tr |-> <<%s>>, exact |-> <<%s>>]' % (z["name"], z["init"], tr, ex)
+    return '[name |-> "%s", init |-> %d, initExact |-> %s, tr |-> <<%s>>, exact |-> <<%s>>]' % (
+        z["name"], z["init"], "TRUE" if z["init_exact"] else "FALSE", tr, ex)
 
 
 def wrapper(zones, probes, plain, series=()):
@@ -120,7 +121,11 @@ Init ==
           /\\ kind = "series"
 Next == UNCHANGED vars
 Spec == Init /\\ [][Next]_vars
-Judged == \\A k \\in ErasOf(Z, local) : k >= 2 /\\ ZonesT[zi].exact[k]
+(* era 0 (before the first transition) is judged only for a zone that has no transition at all and whose single
+   offset is a whole minute in the zone file (Etc/GMT+5, UTC ...): pytz then uses exactly that offset *)
+Judged == \\A k \\in ErasOf(Z, local) :
+            IF k = 0 THEN Len(ZonesT[zi].tr) = 0 /\\ ZonesT[zi].initExact
+            ELSE k >= 2 /\\ ZonesT[zi].exact[k]
 AtMostTwo == Cardinality(ValidInstants(Z, local)) <= 2
 (* a uniform half-hourly UTC series across the transition, rendered in the zone *)
 SeriesOf(t) == [i \\in 1..24 |-> <<t - 21600 + i * 1800, Render(Z, t - 21600 + i * 1800)>>]
